@@ -3,7 +3,7 @@ Candidate selection (internal/app/util.go): `findMostRecentNodeAndDetectSplitbra
 `detectSplitbrain`, `getMostPriorityNode`, `getMostDesirableNode`, `filterOutNodeFromPositions`.
 
 Lags are `float64` seconds in Go; the code only compares and subtracts them, the model uses `Int`
-(the harness feeds whole seconds; unknown lag is the code's own 99999999).
+(the harness feeds milliseconds; unknown lag is the code's own 99999999 s).
 -/
 import MysyncModel.Gtid
 
